@@ -7,6 +7,7 @@ import (
 	"time"
 
 	"github.com/PowerDNS/lightningstream/config"
+	"github.com/PowerDNS/lightningstream/snapshot"
 	"github.com/PowerDNS/lmdb-go/lmdb"
 	"pgregory.net/rapid"
 
@@ -145,24 +146,54 @@ func checkC01c(c C01c, o *vcore.Obs) error {
 		// a later write must be detected later: keep the wall-clock stamps of consecutive steps apart
 		time.Sleep(50 * time.Microsecond)
 	}
-	// quiescence, the way the loop does it
+	// quiescence, the way the loop does it: an instance uploads when it never has or when its LMDB changed since the
+	// last transaction it synced; the other one merges every snapshot it has not merged yet
+	newestOf := func(d *dupInst) (string, error) {
+		ls, err := d.st.List(ctx, "")
+		if err != nil {
+			return "", err
+		}
+		names := ls.Names()
+		if len(names) == 0 {
+			return "", nil
+		}
+		return names[len(names)-1], nil
+	}
+	merged := map[string]string{} // "receiver<-sender" -> name of the sender's snapshot merged last
 	for round := 0; ; round++ {
-		if round > 6 {
-			return fmt.Errorf("no quiescence after 6 rounds of exchanging snapshots")
+		if round > 8 {
+			return fmt.Errorf("no quiescence after 8 rounds of exchanging snapshots")
 		}
 		changed := false
 		for i := range insts {
 			x, y := insts[i], insts[1-i]
-			if round == 0 || lm.LastTxnID(x.env.Env) > int64(x.last) {
-				before := lm.LastTxnID(y.env.Env)
-				if err := exchangeFrom(x, y); err != nil {
-					return fmt.Errorf("quiescence round %d: %w", round, err)
+			if lm.LastTxnID(x.env.Env) > int64(x.last) { // (an instance with an empty LMDB uploads nothing)
+				if _, err := x.send(ctx); err != nil {
+					return fmt.Errorf("quiescence round %d: SendOnce on %s: %v", round, x.name, err)
 				}
-				if lm.LastTxnID(y.env.Env) != before {
-					changed = true
-				}
-				changed = changed || round == 0
+				changed = true
 			}
+			name, err := newestOf(x)
+			if err != nil {
+				return err
+			}
+			if name == "" || merged[y.name+"<-"+x.name] == name {
+				continue
+			}
+			blob, err := x.st.Load(ctx, name)
+			if err != nil {
+				return err
+			}
+			sn, err := snapshot.LoadData(blob)
+			if err != nil {
+				return fmt.Errorf("snapshot %s of %s: %v", name, x.name, err)
+			}
+			seq++
+			if err := y.load(ctx, x.name, sn, seq); err != nil {
+				return fmt.Errorf("quiescence round %d: LoadOnce of %s on %s: %v", round, name, y.name, err)
+			}
+			merged[y.name+"<-"+x.name] = name
+			changed = true
 		}
 		if !changed {
 			break
